@@ -225,7 +225,7 @@ def Join.next (j : Join μ β) : Bool × Join μ β :=
   if f then Join.skip M B (Join.fuel M B j') j' else (false, j')
 
 def joinOps : IterOps (Join μ β) :=
-  ⟨Join.first M B, Join.next M B, fun j => j.key, fun j => j.value, fun j => M.bound j.mem + B.bound j.back⟩
+  ⟨Join.first M B, Join.next M B, fun j => j.key, fun j => j.value, fun j => M.bound j.mem + B.bound j.back + 3⟩
 
 end join
 
@@ -502,21 +502,21 @@ def discard (s : StateDB) (idx : Int) : Option StateDB :=
   if idx < 0 then none else
   if idx.toNat + 1 > s.snaps.length then none else some { s with snaps := s.snaps.take idx.toNat }
 
-inductive Op
+inductive SOp
   | mutate (m : Mut)
   | snapshot
   | revert (idx : Int)
   | discard (idx : Int)
   deriving Repr, DecidableEq
 
-def step (s : StateDB) : Op → Option StateDB
+def step (s : StateDB) : SOp → Option StateDB
   | .mutate m => s.applyMut m
   | .snapshot => some s.snapshot.1
   | .revert i => s.revert i
   | .discard i => s.discard i
 
 /-- a history; a panicking operation is recovered by the caller and leaves the state unchanged -/
-def runOps (s : StateDB) (ops : List Op) : StateDB :=
+def runOps (s : StateDB) (ops : List SOp) : StateDB :=
   ops.foldl (fun s o => (s.step o).getD s) s
 
 end StateDB
